@@ -15,93 +15,6 @@ import (
 	"pgregory.net/rapid"
 )
 
-// gRelayResponse: a response with >= 2 Via entries whose second entry names a
-// harness endpoint; sent from a backend / hop / UA socket.
-type respCase struct {
-	From   string `json:"sent_from"`
-	Entry  int    `json:"listen_entry"`
-	Wire   string `json:"wire"`
-	Msg    *AMsg  `json:"-"`
-	sender *labEP
-}
-
-func (s *stdSvc) gRelayResponse(rt *rapid.T, maxExt, maxLong, maxBody int) respCase {
-	var rc respCase
-	rc.Entry = rapid.IntRange(0, 1).Draw(rt, "entry")
-	l := s.in.cfg.Listens[rc.Entry]
-	switch rapid.IntRange(0, 2).Draw(rt, "sender") {
-	case 0:
-		_, hp, _ := strings.Cut(l.Backends[rapid.IntRange(0, 1).Draw(rt, "backend")], "://")
-		h, p := splitHostPort(hp)
-		rc.sender, _ = s.in.hub.udpEP("backend-udp", h, p)
-		rc.From = "backend " + hp
-	case 1:
-		rc.sender, _ = s.in.hub.udpEP("", s.ip(25), 5070)
-		rc.From = "hop " + s.ip(25)
-	default:
-		rc.sender = s.uas2[rapid.IntRange(0, 3).Draw(rt, "ua")]
-		rc.From = "ua " + rc.sender.ip
-	}
-	p := msgParts{IsReq: false, Version: "SIP/2.0", Code: gStatus(rt, "code"), Reason: gReason(rt, "reason")}
-	p.CSeqMethod = gMethod(rt, "cseqmethod")
-	p.CSeqN = rapid.IntRange(0, 1<<31-1).Draw(rt, "cseq")
-	p.CallID = s.nextID("rcid-") + gIdent(rt, "callid")
-	p.From = gNameAddr(rt, "from", naOpts{allowAbs: true, allowBare: true, maxParams: 3})
-	p.To = gNameAddr(rt, "to", naOpts{allowAbs: true, allowBare: true, maxParams: 3})
-	top := AVia{Proto: "SIP", Ver: "2.0", Transport: "UDP", Host: l.Addr, Port: l.UDPPort, Params: []AParam{{K: "branch", V: "z9hG4bK" + s.nextID("pb"), HasV: true}}}
-	ua := rapid.IntRange(0, 3).Draw(rt, "toua")
-	second := AVia{Proto: "SIP", Ver: "2.0", Transport: rapid.SampledFrom([]string{"UDP", "UDP", "TCP", "udp", "Tcp"}).Draw(rt, "transport"), Host: s.ip(10 + ua), Port: rapid.SampledFrom([]int{5060, 6010, 0}).Draw(rt, "port")}
-	second.Params = gParamList(rt, "viaparams", 3, tokAlpha+"-.!%*_+`'~", viaParamReserved)
-	second.Params = gInsertParam(rt, "bpos", second.Params, AParam{K: "branch", V: "z9hG4bK" + s.nextID("ub"), HasV: true})
-	p.Vias = []AVia{top, second}
-	more := rapid.IntRange(0, 3).Draw(rt, "morevias")
-	for i := 0; i < more; i++ {
-		p.Vias = append(p.Vias, gVia(rt, fmt.Sprintf("via%d", i), viaOpts{}))
-	}
-	nrr := rapid.IntRange(0, 2).Draw(rt, "nrr")
-	for i := 0; i < nrr; i++ {
-		p.RRs = append(p.RRs, s.gRouteEntry(rt, fmt.Sprintf("rr%d", i)))
-	}
-	p.Ext = gExtHeaders(rt, "ext", maxExt, maxLong)
-	p.Body = gBody(rt, "body", maxBody)
-	m := assemble(rt, "layout", p)
-	fitUDP(m, 63000)
-	rc.Msg = m
-	rc.Wire = jsonBytes(m.Bytes())
-	return rc
-}
-
-type respResult struct {
-	Hop mHop
-	Ok  bool
-	Got []labRx
-	Out *RMsg
-}
-
-func (s *stdSvc) runResponse(rc respCase) (*respResult, error) {
-	l := s.in.cfg.Listens[rc.Entry]
-	send := func(b []byte) error { return rc.sender.sendUDP(l.Addr, l.UDPPort, b) }
-	res := &respResult{}
-	res.Hop, res.Ok = s.model.responseHop(rc.Msg.Vias())
-	s.in.expect(rc.Msg.Bytes())
-	if err := send(rc.Msg.Bytes()); err != nil {
-		return nil, err
-	}
-	min := 0
-	if res.Ok {
-		min = 1
-	}
-	rs, err := s.in.settle(send, min)
-	if err != nil {
-		return res, err
-	}
-	res.Got = labMessages(rs)
-	if len(res.Got) > 0 {
-		res.Out = res.Got[0].msg
-	}
-	return res, nil
-}
-
 func c01NonTrivial(m *AMsg) bool {
 	hasExt := false
 	for _, h := range m.Hdrs {
